@@ -29,6 +29,45 @@ func MarshalSegment(segment *Segment, writer io.Writer) error {
 	return nil
 }
 
+// MarshalSegmentRecord writes the byte length of the marshalled segment followed by the segment. The marshalled IDs may
+// contain any byte value, so a stream of segments can not be split on a delimiter.
+func MarshalSegmentRecord(segment *Segment, writer io.Writer) error {
+	var (
+		numIDs      = segment.Depth()*2 - 1
+		lengthBytes = make([]byte, 8)
+	)
+
+	binary.LittleEndian.PutUint64(lengthBytes, uint64(numIDs*8))
+
+	if _, err := writer.Write(lengthBytes); err != nil {
+		return err
+	}
+
+	return MarshalSegment(segment, writer)
+}
+
+// UnmarshalSegmentRecord reads one segment written by MarshalSegmentRecord. It returns io.EOF when the reader is at
+// the end of the stream.
+func UnmarshalSegmentRecord(reader io.Reader) (*Segment, error) {
+	lengthBytes := make([]byte, 8)
+
+	if _, err := io.ReadFull(reader, lengthBytes); err != nil {
+		return nil, err
+	}
+
+	segmentBytes := make([]byte, binary.LittleEndian.Uint64(lengthBytes))
+
+	if _, err := io.ReadFull(reader, segmentBytes); err != nil {
+		if err == io.EOF {
+			err = io.ErrUnexpectedEOF
+		}
+
+		return nil, err
+	}
+
+	return UnmarshalSegment(segmentBytes), nil
+}
+
 func UnmarshalSegment(segmentBytes []byte) *Segment {
 	var (
 		nextSegment     *Segment
